@@ -64,6 +64,12 @@ CASES = [
     ('setPos with a position of strings is refused', 'o = "C" createVehicle [0,0,0]; { o setPos ["a","b","c"] } except__ { }; getPos o', '[0,0,0]'),
     ('doMove on the null object is reported', 'objNull doMove [1,2,3]; 7', '7'),
     ('setPos on the null object is reported', 'objNull setPos [1,2,3]; 7', '7'),
+    ('setVelocity with a short velocity is refused', 'o = "C" createVehicle [0,0,0]; { o setVelocity [1,2] } except__ { }; velocity o', '[0,0,0]'),
+    ('setVelocity sets the velocity', 'o = "C" createVehicle [0,0,0]; o setVelocity [1,2,3]; velocity o', '[1,2,3]'),
+    ('side of an object without a group', 'o = "C" createVehicle [0,0,0]; str (side o)', 'EMPTY'),
+    ('units of an object without a group', 'o = "C" createVehicle [0,0,0]; { units o } except__ { }; 7', '7'),
+    ('crew of an empty vehicle', 'o = "C" createVehicle [0,0,0]; crew o', '[]'),
+    ('vehicle of a vehicle without parent', 'o = "C" createVehicle [0,0,0]; (vehicle o) isEqualTo o', 'true'),
 ]
 def search(sqfvm):
     for (name, code, want) in CASES:
